@@ -85,6 +85,17 @@ def k_sample(ctx, xs):
     _check_value(ctx, ctx.call(prs.pc, np.array(xs)), exp, "pc:one-sample:ndarray", "pc(ndarray)", xs)
     _check_value(ctx, ctx.call(prs.pc, pd.Series(xs, index=range(3, 3 + len(xs)))), exp,
                  "pc:one-sample:series", "pc(Series shifted index)", xs)
+    # one caller-owned buffer filled with another sample of the same size and used again: the answer is about the present content
+    if len(xs) >= 2:
+        buf = np.array(xs)
+        first = ctx.call(prs.pc, buf)
+        zs = list(xs)
+        zs[0] = xs[-1] if xs[0] != xs[-1] else next((x for x in xs if x != xs[0]), xs[0])
+        buf[0] = zs[0]
+        if [str(v) for v in buf.tolist()] == [str(v) for v in np.array(zs).tolist()]:
+            _check_value(ctx, first, exp, "pc:one-sample:buffer", "pc(buffer)", xs)
+            _check_value(ctx, ctx.call(prs.pc, buf), O.pc_pairs(zs), "pc:one-sample:buffer-refilled", "pc(same ndarray object, content replaced in place)", zs)
+            ctx.count("buffer_refilled_checked")
     # injective relabelling
     for how in ("int", "float", "str"):
         _check_value(ctx, ctx.call(prs.pc, relabel(xs, how)), exp, f"pc:one-sample:relabel-{how}",
@@ -169,6 +180,19 @@ def k_table(ctx, rows, cols, kinds, rows2=None):
     df_p = df.iloc[perm]
     _check_value(ctx, ctx.call(prs.pc, df_p), exp, f"pc:table:permuted:{tag}", "pc(table rows permuted)", rows)
     _check_value(ctx, ctx.call(prs.pc_joint, df_p, list(cols)), exp, f"pc_joint:permuted:{tag}", "pc_joint(rows permuted)", rows)
+    # the caller edits the table in place (same object, same shape) and asks again
+    if len(rows) >= 2 and _rowkey(rows[0]) != _rowkey(rows[-1]):
+        df_e = _frame(rows, cols, kinds)
+        ctx.call(prs.pc, df_e)
+        ctx.call(prs.pc_joint, df_e, list(cols))
+        for ci in range(len(cols)):
+            df_e.iat[0, ci] = df_e.iat[len(rows) - 1, ci]
+        rows_e = [list(rows[-1])] + [list(r) for r in rows[1:]]
+        exp_e = O.pc_pairs([_rowkey(r) for r in rows_e])
+        _check_value(ctx, ctx.call(prs.pc, df_e), exp_e, f"pc:table:edited-in-place:{tag}", "pc(same table object after an in-place edit)", rows_e)
+        _check_value(ctx, ctx.call(prs.pc_joint, df_e, list(cols)), exp_e, f"pc_joint:edited-in-place:{tag}",
+                     "pc_joint(same table object after an in-place edit)", rows_e)
+        ctx.count("tables_edited_in_place")
     if rows2 is not None:
         df2 = _frame(rows2, cols, kinds)
         keys2 = [_rowkey(r) for r in rows2]
